@@ -195,6 +195,9 @@ def explain(fn, args):
     if fn == "h_attr_use":
         return "XSD %s base attribute use=%s type/fixed %r, restricted to %r: accepted although an instance valid for the derived type is invalid for the base" % (
             CFG["version"], B_USES[args["bu"]], (A_TYPES[args["ty"]], A_FIXED[args.get("bf", 0)], A_FIXED[args.get("df", 0)]), D_USES[args["du"]])
+    if fn == "h_open_content_restriction":
+        return "XSD 1.1 base open content %s/%s restricted to %s/%s: accepted although an instance valid for the derived type is invalid for the base" % (
+            OC_MODES[args["bm"]], OC_WILD[args["bw"]], OC_MODES[args["dm"]], OC_WILD[args["dw"]])
     if fn == "h_facet_restriction":
         return "XSD %s base facet %s=%d restricted with %s=%d: accepted although not included" % (
             CFG["version"], FACET_PAIRS[args["fp"]][0], F_VALUES[args["bv"]], FACET_PAIRS[args["fp"]][1], F_VALUES[args["dv"]])
@@ -256,6 +259,45 @@ def h_attr_use(**kw) -> bool:
     return True
 
 
+OC_MODES = ["none", "interleave", "suffix"]
+OC_WILD = ["##any", "##other"]
+OC_PROBES = [[], ['a'], ['a', '{urn:z}z'], ['{urn:z}z', 'a'], ['a', 'q'], ['q', 'a'], ['{urn:z}z']]
+
+
+def pre_oc(fn, bm, dm, bw, dw):
+    return 0 <= bm < 3 and 0 <= dm < 3 and 0 <= bw < 2 and 0 <= dw < 2
+
+
+def h_open_content_restriction(bm: int, dm: int, bw: int, dw: int) -> bool:
+    """XSD 1.1: a restriction may change the open content of its base only to something that admits less (mode and
+    wildcard): if the library accepts the derivation, every probe valid for the derived type is valid for the base"""
+    from engine.sym import real_io
+    bmode, dmode = OC_MODES[pick(bm, 3)], OC_MODES[pick(dm, 3)]
+    bwild, dwild = OC_WILD[pick(bw, 2)], OC_WILD[pick(dw, 2)]
+    with real_io():
+        def oc(mode, wild):
+            if mode == "none":
+                return '<xs:openContent mode="none"/>'
+            return '<xs:openContent mode="%s"><xs:any namespace="%s" processContents="skip"/></xs:openContent>' % (mode, wild)
+        model = '<xs:sequence><xs:element name="a" type="xs:string"/></xs:sequence>'
+        text = ('<xs:schema xmlns:xs="http://www.w3.org/2001/XMLSchema" targetNamespace="urn:t" xmlns="urn:t" elementFormDefault="qualified">'
+                '<xs:complexType name="B">%s%s</xs:complexType>'
+                '<xs:complexType name="D"><xs:complexContent><xs:restriction base="B">%s%s</xs:restriction></xs:complexContent></xs:complexType>'
+                '<xs:element name="b" type="B"/><xs:element name="d" type="D"/></xs:schema>') % (oc(bmode, bwild), model, oc(dmode, dwild), model)
+        sch = _build_or_none("1.1", text)
+        if sch is None:
+            return True
+        for kids in OC_PROBES:
+            eb, ed = ET.Element('{urn:t}b'), ET.Element('{urn:t}d')
+            for k in kids:
+                name = k if k.startswith('{') else '{urn:t}' + k
+                ET.SubElement(eb, name)
+                ET.SubElement(ed, name)
+            if sch.is_valid(ed) and not sch.is_valid(eb):
+                return False
+    return True
+
+
 FACET_PAIRS = [("minInclusive", "minInclusive"), ("maxInclusive", "maxInclusive"), ("minExclusive", "minExclusive"), ("maxExclusive", "maxExclusive"),
                ("minInclusive", "minExclusive"), ("maxInclusive", "maxExclusive"), ("minExclusive", "minInclusive"), ("maxExclusive", "maxInclusive"),
                ("totalDigits", "totalDigits"), ("minLength", "minLength"), ("maxLength", "maxLength"), ("length", "length"),
@@ -301,6 +343,11 @@ def pairs():
     element->group, substitution member; the derived occurrences are symbolic"""
     E, W, Sq, C = S.E, S.W, S.S, S.C
     out = []
+    # all-groups (round 4): members dropped at the tail / head of an xs:all
+    for b, ds in ((S.A(E('a'), E('b'), E('c')), [S.A(E('a'), E('b')), S.A(E('b'), E('c')), S.A(E('a'), E('b'), E('c'))]),
+                  (S.A(E('a'), E('b', 0, 1), E('c', 0, 1)), [S.A(E('a'), E('b')), S.A(E('a'))])):
+        for d in ds:
+            out.append((b, d, "all-group"))
     bases = [
         Sq(E('a', 0, None), E('b', 0, 1)), Sq(E('a'), E('b', 0, None), E('c', 0, 1)), C(E('a'), E('b'), mn=0, mx=None),
         Sq(E('a', 1, 2), Sq(E('b', 0, 1), E('c', 0, None), mn=0, mx=1)), Sq(W('any', 0, None)), Sq(E('a', 0, 1), W('other', 0, None)),
@@ -382,6 +429,9 @@ def obligations(tier, seed):
         out.append({"name": "facet-restriction/%s" % version, "fn": "h_facet_restriction", "pre": "pre_facet", "args": [["fp", "int"], ["bv", "int"], ["dv", "int"]],
                     "config": {"base": None, "version": version}, "timeout": 600, "twin_timeout": 30,
                     "bound": "%d (base facet, derived facet) pairs x values %r x %r; integer / string probes (finite choice; construction outside the tracer)" % (len(FACET_PAIRS), F_VALUES, F_VALUES)})
+    out.append({"name": "open-content-restriction/1.1", "fn": "h_open_content_restriction", "pre": "pre_oc",
+                "args": [["bm", "int"], ["dm", "int"], ["bw", "int"], ["dw", "int"]], "config": {"base": None, "version": "1.1"}, "timeout": 300, "twin_timeout": 30,
+                "bound": "base / derived open content mode from %r x wildcard from %r; probes %r (finite choice; construction outside the tracer)" % (OC_MODES, OC_WILD, OC_PROBES)})
     import random
     rnd = random.Random(seed)
     ps = pairs()
